@@ -73,7 +73,7 @@ def r1_one_impl(rep, ctx):
     sfn = m.method("Scalar", "_DoOperation")
     sname, sdb, scalls = _opfunc_calls(m, sfn)
     sres = Resolver(m, sfn)
-    rep.floor("C10.R1", "operation calls in Scalar._DoOperation", len(scalls), 2)
+    rep.floor("C10.R1", "operation calls in Scalar._DoOperation", len(scalls), 1)
     for c in scalls:
         args = [sres.term(a) for a in c.args]
         ok = len(args) == 4
